@@ -14,6 +14,7 @@ not proved here), and unconditionally for the first solve (`M = I`).
 The sum-power kernel is excluded: it has no adaptive mode (the code raises).
 -/
 import Xrfmv.Lemmas.Median
+import Xrfmv.Lemmas.AgopScale
 
 namespace Xrfmv.Props.C19
 open Xrfmv Xrfmv.Kernel Xrfmv.Median
@@ -146,5 +147,15 @@ example : lowerMedian ([1, 2, 3, 4] : List ℝ) = some 2 ∧ upperMedian ([1, 2,
     simp only [List.pairwise_cons, List.mem_cons, List.not_mem_nil, or_false, decide_eq_true_eq]
     norm_num
   constructor <;> simp [lowerMedian, upperMedian, h]
+
+/-- **C19 (towards the AGOP contract)** One half of `AgopScaleCovariant` is proved on the AGOP model of C14: if every
+gradient row is multiplied by a common factor `a ≠ 0` — which is what rescaling the inputs and the bandwidth by `c` does
+to the gradients of every Laplace-family kernel (`a = 1/c`, a consequence of the closed forms of C04 that is *not* proved
+here) — the max-normalised AGOP is unchanged.  What remains unproved of the contract is therefore only that homogeneity of
+the gradients (and the idealisation of the `1e-30` regulariser). -/
+theorem normalised_agop_scale_free (d : ℕ) (G : List (List ℝ)) (a : ℝ) (ha : a ≠ 0) :
+    Xrfmv.Agop.normalise 0 (Xrfmv.Agop.agopFull d (G.map fun g => g.map (a * ·))) =
+      Xrfmv.Agop.normalise 0 (Xrfmv.Agop.agopFull d G) :=
+  Xrfmv.Agop.normalised_agop_scale_invariant d G a ha
 
 end Xrfmv.Props.C19
